@@ -54,7 +54,18 @@ impl Out {
         self.ops.flush().unwrap();
         self.imp.flush().unwrap();
         let mut f = File::create(format!("{}/stats.json", self.dir)).unwrap();
-        let esc = |s: &str| s.replace('\\', "\\\\").replace('"', "\\\"");
+        let esc = |s: &str| -> String {
+            let mut o = String::new();
+            for c in s.chars() {
+                match c {
+                    '\\' => o.push_str("\\\\"),
+                    '"' => o.push_str("\\\""),
+                    c if (c as u32) < 0x20 || c == '\u{2028}' || c == '\u{7f}' => o.push_str(&format!("\\u{:04x}", c as u32)),
+                    c => o.push(c),
+                }
+            }
+            o
+        };
         let mut s = String::from("{\n");
         s += &format!("  \"lines\": {},\n", self.n);
         s += &format!("  \"distinct\": {},\n", self.distinct.len());
